@@ -18,7 +18,12 @@ enum T {
     Lit(Value),
     /// an arithmetic sub-term the narrowing does not understand: col + 1
     Plus1(usize),
+    /// a unary function of a column (functions that are one-to-one but preserve neither values nor order are the
+    /// interesting ones: a narrowing that "sees through" them writes the image of f(col) into col)
+    Un(&'static str, usize),
 }
+
+const UNARY: [&str; 5] = ["neg", "exp", "abs", "cast_float", "times2"];
 
 #[derive(Clone, Copy, Debug, PartialEq)]
 enum Op {
@@ -55,6 +60,16 @@ impl T {
             T::Col(i) => col_expr(names, *i),
             T::Lit(v) => Expr::val(v.clone()),
             T::Plus1(i) => Expr::plus(col_expr(names, *i), Expr::val(Value::integer(1))),
+            T::Un(f, i) => {
+                let c = col_expr(names, *i);
+                match *f {
+                    "neg" => Expr::opposite(c),
+                    "exp" => Expr::exp(c),
+                    "abs" => Expr::abs(c),
+                    "cast_float" => Expr::cast_as_float(c),
+                    _ => Expr::multiply(c, Expr::val(Value::integer(2))),
+                }
+            }
         }
     }
     fn shape(&self) -> &'static str {
@@ -62,6 +77,13 @@ impl T {
             T::Col(_) => "col",
             T::Lit(_) => "lit",
             T::Plus1(_) => "col+1",
+            T::Un(f, _) => match *f {
+                "neg" => "-col",
+                "exp" => "exp(col)",
+                "abs" => "abs(col)",
+                "cast_float" => "float(col)",
+                _ => "col*2",
+            },
         }
     }
     fn show(&self, names: &[Vec<String>]) -> String {
@@ -72,11 +94,17 @@ impl T {
                 v => v.to_string(),
             },
             T::Plus1(i) => format!("({} + 1)", names[*i].join(".")),
+            T::Un(f, i) => match *f {
+                "neg" => format!("-{}", names[*i].join(".")),
+                "times2" => format!("({} * 2)", names[*i].join(".")),
+                "cast_float" => format!("CAST({} AS FLOAT)", names[*i].join(".")),
+                f => format!("{f}({})", names[*i].join(".")),
+            },
         }
     }
     fn cols(&self, out: &mut Vec<usize>) {
         match self {
-            T::Col(i) | T::Plus1(i) => out.push(*i),
+            T::Col(i) | T::Plus1(i) | T::Un(_, i) => out.push(*i),
             _ => {}
         }
     }
@@ -184,6 +212,17 @@ fn term(t: &T, row: &[Value]) -> Sc {
         T::Plus1(i) => match scalar(&row[*i]) {
             Sc::Num(f, Some(i)) => Sc::Num(f + 1.0, i.checked_add(1)),
             Sc::Num(f, None) => Sc::Num(f + 1.0, None),
+            Sc::Null => Sc::Null,
+            _ => Sc::Other,
+        },
+        T::Un(f, i) => match scalar(&row[*i]) {
+            Sc::Num(x, xi) => match *f {
+                "neg" => Sc::Num(-x, xi.and_then(|v| v.checked_neg())),
+                "exp" => Sc::Num(x.exp(), None),
+                "abs" => Sc::Num(x.abs(), xi.and_then(|v| v.checked_abs())),
+                "cast_float" => Sc::Num(x, None),
+                _ => Sc::Num(x * 2.0, xi.and_then(|v| v.checked_mul(2))),
+            },
             Sc::Null => Sc::Null,
             _ => Sc::Other,
         },
@@ -387,6 +426,23 @@ fn atoms(kinds: &[&'static str], tier: Tier) -> Vec<P> {
         out.push(P::Cmp(Op::Lt, T::Lit(Value::integer(0)), T::Plus1(c)));
         out.push(P::Cmp(Op::Eq, T::Plus1(c), T::Lit(Value::integer(1))));
     }
+    // comparisons whose operand is a unary function of a column, both operand orders, and against another column
+    for &c in &num {
+        for f in UNARY.iter().copied().take(tier.pick(3, 5)) {
+            for op in [Op::Gt, Op::LtEq, Op::Lt, Op::GtEq, Op::Eq] {
+                for l in lits.iter().take(tier.pick(2, 3)) {
+                    out.push(P::Cmp(op, T::Un(f, c), T::Lit(l.clone())));
+                    out.push(P::Cmp(op, T::Lit(l.clone()), T::Un(f, c)));
+                }
+            }
+            for &d in &num {
+                if c != d {
+                    out.push(P::Cmp(Op::GtEq, T::Un(f, c), T::Col(d)));
+                    out.push(P::Cmp(Op::Lt, T::Col(d), T::Un(f, c)));
+                }
+            }
+        }
+    }
     for &c in &num {
         for &d in &num {
             if c != d {
@@ -418,16 +474,27 @@ fn predicates(kinds: &[&'static str], tier: Tier) -> Vec<P> {
     }
     // depth 2: all pairs of a thinned atom list (every 3rd in quick)
     let step = tier.pick(6, 2);
-    let thin: Vec<P> = a.iter().step_by(step).cloned().collect();
+    let is_fun = |p: &P| matches!(p, P::Cmp(_, T::Un(_, _), _) | P::Cmp(_, _, T::Un(_, _)));
+    let plain: Vec<P> = a.iter().filter(|p| !is_fun(p)).cloned().collect();
+    let funs: Vec<P> = a.iter().filter(|p| is_fun(p)).cloned().collect();
+    let thin: Vec<P> = plain.iter().step_by(step).cloned().collect();
     for x in &thin {
         for y in &thin {
             out.push(P::And(Box::new(x.clone()), Box::new(y.clone())));
             out.push(P::Or(Box::new(x.clone()), Box::new(y.clone())));
         }
     }
+    // a plain atom combined with a function atom (every 7th / 3rd of them), both orders
+    let fthin: Vec<P> = funs.iter().step_by(tier.pick(7, 3)).cloned().collect();
+    for x in thin.iter().step_by(tier.pick(3, 1)) {
+        for y in &fthin {
+            out.push(P::And(Box::new(x.clone()), Box::new(y.clone())));
+            out.push(P::Or(Box::new(y.clone()), Box::new(x.clone())));
+        }
+    }
     if tier == Tier::Thorough {
         // depth 3 on a small atom list
-        let small: Vec<P> = a.iter().step_by(17).cloned().collect();
+        let small: Vec<P> = plain.iter().step_by(17).cloned().collect();
         for x in &small {
             for y in &small {
                 for z in &small {
